@@ -223,7 +223,12 @@ def connect (host : Bytes) (port : Nat) (cred : Option (Bytes × Bytes)) : M Rep
   match cred with
   | some (u, p) => let _ ← mkCmd "USER" (some u); let _ ← mkCmd "PASS" (some p); pure ()
   | none => pure ()
-  -- control_connection::connect: clean state, TCP connect; the server plays its greeting group
+  -- control_connection::connect: a connection that is still open is abandoned first (closed, no shutdown) ...
+  let w0 ← getW
+  if w0.connected then
+    emit .ctlClose
+    modifyW fun w => { w with connected := false }
+  -- ... then: clean state, TCP connect; the server plays its greeting group
   modifyW fun w =>
     let g : Group := match w.script with
       | g :: _ => g
